@@ -406,6 +406,15 @@ class C05(Check):
                 got = [(tr.getObs(j).timestamp, tr.getObs(j).position) for j in range(tr.size())]
                 desc = 'fixes %r at ms %r, requested ms %r' % (list(zip(xs, ys, zs)), tms, req)
                 out = dict(size=tr.size())
+                if job['form'] == 'step' and want and want[-1] == tms[-1] and len(got) == len(want) - 1:
+                    # the step divides the duration exactly: the last instant is reached by repeated float addition (t += step), which may overshoot
+                    # t_last by an ulp (0.016 + 3 * 0.001 = 0.019000000000000003 > 0.019).  With floats as reals that border is undefined: the shorter
+                    # count is accepted only when an independent accumulation in binary64 does overshoot (exactly representable cases stay required)
+                    acc, tl = tms[0] / 1000.0, tms[-1] / 1000.0
+                    for _ in range(len(want)):
+                        acc += delta
+                    if 0 < acc - tl < 1e-9:
+                        want = want[:-1]
                 if len(got) != len(want):
                     return dict(violation='%s: %d samples returned, %d requested instants lie in (t_first, t_last]' % (desc, len(got), len(want)), outputs=out)
                 for (t, p), r in zip(got, want):
